@@ -9,6 +9,7 @@ Part C: the shipped dataset: rounding coefficient, forward error, ancestors-only
 -/
 import RdVerif.Proofs.NuclideSet
 import RdVerif.Model.Rounding
+import RdVerif.Gen.Icrp107.Obl.WroundAll
 
 set_option maxRecDepth 20000
 
@@ -253,14 +254,10 @@ end RdVerif
 namespace RdVerif.Icrp107
 open RdVerif RdVerif.Gen RdVerif.Gen.Icrp107.Obl
 
-section
-variable (hround : ∀ b, b < 38 → checkRoundBlock icrp107 roundBound b = true)
-include hround
-
 theorem rowRound (i : ℕ) (hi : i < N) :
     roundRowOk icrp107 roundBound i (getRow icrp107.cx i) = true :=
   items_checked (roundRowOk icrp107 roundBound) icrp107.cx N [] shape_cx
-    (fun b hb => hround b (lt_nb hb)) i hi
+    (fun b hb => wround_all b (lt_nb hb)) i hi
 
 /-- the checked inequality, or a column without terms -/
 theorem icrp107_round (i j : Fin N) :
@@ -270,9 +267,7 @@ theorem icrp107_round (i j : Fin N) :
   roundRowOk_meaning icrp107 roundBound i.val
     (fun e he => icrp107_patternFacts.cix_sorted e.col
       (icrp107_patternFacts.cx_lt i.val i.isLt e he))
-    (rowRound hround i.val i.isLt) j.val
-
-end
+    (rowRound i.val i.isLt) j.val
 
 /-- every row of the shipped `C` stores at most `N ≤ 2000` entries -/
 theorem row_length_le (i : ℕ) (hi : i < N) : (getRow icrp107.cx i).length ≤ 2000 := by
@@ -302,10 +297,6 @@ theorem sum_abs_hat_le (i j : Fin N) :
         Finset.sum_add_distrib
     _ ≤ _ := add_le_add hK.le (icrp107_B i j)
 
-section
-variable (hround : ∀ b, b < 38 → checkRoundBlock icrp107 roundBound b = true)
-include hround
-
 /-- rounding part: with the kernel-checked `wround_all` -/
 theorem icrp107_round_coef (i j : Fin N) :
     (((roundCoef (getRow icrp107.cx i.val).length : ℚ) : ℝ))
@@ -313,7 +304,7 @@ theorem icrp107_round_coef (i j : Fin N) :
   obtain ⟨h0, hsmall⟩ := roundCoef_small _ (row_length_le i.val i.isLt)
   have hq : roundCoef (getRow icrp107.cx i.val).length
       * (condSum icrp107 i.val j.val + aggErrBound) ≤ roundBound := by
-    rcases icrp107_round hround i j with h | h
+    rcases icrp107_round i j with h | h
     · rw [h, zero_add]; exact hsmall
     · exact h
   have hr : (((roundCoef (getRow icrp107.cx i.val).length : ℚ) : ℝ))
@@ -324,8 +315,6 @@ theorem icrp107_round_coef (i j : Fin N) :
   refine (mul_le_mul_of_nonneg_left (sum_abs_hat_le i j) h0').trans (hr.trans ?_)
   simp only [roundBound]
   norm_num
-
-end
 
 theorem lamHat_nonneg (k : Fin N) : 0 ≤ lamHat k := by
   have h := (abs_le.1 (lamHat_close k)).1
@@ -339,10 +328,6 @@ theorem Nt_eq_sum (N0 : Fin N → ℝ) (t : ℝ) (i : Fin N) :
   rw [Finset.sum_comm]
   refine Finset.sum_congr rfl (fun j _ => Finset.sum_congr rfl (fun k _ => ?_))
   rw [neg_mul]; ring
-
-section
-variable (hround : ∀ b, b < 38 → checkRoundBlock icrp107 roundBound b = true)
-include hround
 
 /-- the rounding part alone: the computed value against the closed form evaluated exactly on the
 stored doubles -/
@@ -377,7 +362,7 @@ theorem icrp107_rounding_part (t : ℝ) (ht : 0 ≤ t) (N0 : Fin N → ℝ) (hN0
   rw [hcoef, Finset.mul_sum, Finset.mul_sum]
   refine Finset.sum_le_sum (fun j _ => ?_)
   rw [abs_of_nonneg (hN0 j), ← mul_assoc]
-  exact mul_le_mul_of_nonneg_right (icrp107_round_coef hround i j) (hN0 j)
+  exact mul_le_mul_of_nonneg_right (icrp107_round_coef i j) (hN0 j)
 
 /-- **forward error of the double-precision decay calculation for the shipped dataset**:
 under the standard model of floating-point arithmetic (hypotheses hetil, hθ, hcomp describe the
@@ -391,7 +376,7 @@ theorem icrp107_forward_error (t : ℝ) (ht : 0 ≤ t) (N0 : Fin N → ℝ) (hN0
     (hcomp : comp = ∑ j, ∑ k,
       toMatF N icrp107.cf i k * etil k * toMatF N icrp107.cif k j * N0 j * (1 + θ k j)) :
     |comp - RdVerif.C01.Nt N0 t i| ≤ 1 / 10 ^ 11 * ∑ j, N0 j := by
-  have h1 := icrp107_rounding_part hround t ht N0 hN0 i etil hetil θ hθ
+  have h1 := icrp107_rounding_part t ht N0 hN0 i etil hetil θ hθ
   have h2 := icrp107_data_contribution t ht N0 hN0 i
   have hs : 0 ≤ ∑ j, N0 j := Finset.sum_nonneg (fun j _ => hN0 j)
   rw [← hcomp] at h1
@@ -400,6 +385,138 @@ theorem icrp107_forward_error (t : ℝ) (ht : 0 ≤ t) (N0 : Fin N → ℝ) (hN0
       * toMatF N icrp107.cif k j) * N0 j) (RdVerif.C01.Nt N0 t i)
   nlinarith
 
-end
+/-! non-vacuity: exact exponentials, no rounding -/
+example (t : ℝ) (ht : 0 ≤ t) (N0 : Fin N → ℝ) (hN0 : ∀ j, 0 ≤ N0 j) (i : Fin N) :
+    |(∑ j, ∑ k, toMatF N icrp107.cf i k * Real.exp (-(lamHat k * t)) * toMatF N icrp107.cif k j
+        * N0 j * (1 + 0)) - RdVerif.C01.Nt N0 t i| ≤ 1 / 10 ^ 11 * ∑ j, N0 j :=
+  icrp107_forward_error t ht N0 hN0 i (fun k => Real.exp (-(lamHat k * t)))
+    (fun k => by rw [sub_self, abs_zero]; norm_num) (fun _ _ => 0)
+    (fun k j => by
+      rw [abs_zero]
+      have hu0 : (0 : ℚ) ≤ uRound := by unfold uRound; norm_num
+      have hu : ((2 * 2000 + 3 : ℕ) : ℚ) * uRound < 1 := by unfold uRound; norm_num
+      have hlen := row_length_le i.val i.isLt
+      have hle : ((2 * (getRow icrp107.cx i.val).length + 3 : ℕ) : ℚ)
+          ≤ ((2 * 2000 + 3 : ℕ) : ℚ) := by
+        exact_mod_cast (by omega : 2 * (getRow icrp107.cx i.val).length + 3 ≤ 2 * 2000 + 3)
+      have := gammaU_nonneg (2 * (getRow icrp107.cx i.val).length + 3)
+        (lt_of_le_of_lt (mul_le_mul_of_nonneg_right hle hu0) hu)
+      exact_mod_cast this)
+    _ rfl
+
+/-! #### only the ancestors' atoms count -/
+
+theorem toMatF_eq_zero (n : ℕ) (M : List (List FRow)) (i j : Fin n)
+    (h : j.val ∉ fcolsOf (get2 M i.val [])) : toMatF n M i j = 0 := by
+  rw [toMatF_eq_selSum]
+  apply selSum_eq_zero
+  intro x hx hc
+  exact h (List.mem_map.2 ⟨x, hx, hc⟩)
+
+theorem toMat_eq_zero (n : ℕ) (M : Blocks) (i j : Fin n)
+    (h : j.val ∉ colsOf (getRow M i.val)) : toMat n M i j = 0 := by
+  unfold toMat
+  rw [den_eq_zero_of_not_mem _ _ (fun e he hc => h (List.mem_map.2 ⟨e, he, hc⟩))]
+  simp
+
+/-- `Ĉ_ik Ĉ⁻¹_kj = 0` for every `k` unless `j` is `i` or an ancestor of `i` -/
+theorem hat_prod_eq_zero (i j k : Fin N) (h : ¬ AncOrSelf icrp107 j.val i.val) :
+    toMatF N icrp107.cf i k * toMatF N icrp107.cif k j = 0 := by
+  by_cases hk : k.val ∈ colsOf (getRow icrp107.cx i.val)
+  · have hki := (icrp107_cols_iff i.val i.isLt k.val).1 hk
+    have hj : j.val ∉ fcolsOf (get2 icrp107.cif k.val []) := by
+      rw [icrp107_patternFacts.cif_cols k.val k.isLt]
+      intro hj
+      exact h (((icrp107_cols_iff k.val k.isLt j.val).1 hj).trans hki)
+    rw [toMatF_eq_zero N icrp107.cif k j hj, mul_zero]
+  · have hk' : k.val ∉ fcolsOf (get2 icrp107.cf i.val []) := by
+      rw [icrp107_patternFacts.cf_cols i.val i.isLt]; exact hk
+    rw [toMatF_eq_zero N icrp107.cf i k hk', zero_mul]
+
+/-- `C_ik C⁻¹_kj = 0` for every `k` unless `j` is `i` or an ancestor of `i` -/
+theorem exact_prod_eq_zero (i j k : Fin N) (h : ¬ AncOrSelf icrp107 j.val i.val) :
+    C i k * Ci k j = 0 := by
+  unfold C Ci
+  by_cases hk : k.val ∈ colsOf (getRow icrp107.cx i.val)
+  · have hki := (icrp107_cols_iff i.val i.isLt k.val).1 hk
+    have hj : j.val ∉ colsOf (getRow icrp107.cix k.val) := by
+      rw [icrp107_patternFacts.cix_cols k.val k.isLt]
+      intro hj
+      exact h (((icrp107_cols_iff k.val k.isLt j.val).1 hj).trans hki)
+    rw [toMat_eq_zero N icrp107.cix k j hj, mul_zero]
+  · rw [toMat_eq_zero N icrp107.cx i k hk, zero_mul]
+
+open Classical in
+/-- the initial atoms restricted to `i` and its ancestors -/
+noncomputable def ancPart (i : Fin N) (N0 : Fin N → ℝ) : Fin N → ℝ :=
+  fun j => if AncOrSelf icrp107 j.val i.val then N0 j else 0
+
+theorem ancPart_nonneg (i : Fin N) (N0 : Fin N → ℝ) (hN0 : ∀ j, 0 ≤ N0 j) (j : Fin N) :
+    0 ≤ ancPart i N0 j := by
+  unfold ancPart
+  split
+  · exact hN0 j
+  · exact le_rfl
+
+/-- the exact solution at `i` only sees the atoms of `i` and its ancestors -/
+theorem Nt_ancPart (N0 : Fin N → ℝ) (t : ℝ) (i : Fin N) :
+    RdVerif.C01.Nt (ancPart i N0) t i = RdVerif.C01.Nt N0 t i := by
+  rw [Nt_eq_sum, Nt_eq_sum]
+  refine Finset.sum_congr rfl (fun j _ => ?_)
+  unfold ancPart
+  split
+  · rfl
+  · rename_i h
+    have hz : (∑ k, C i k * Real.exp (-(lam k * t)) * Ci k j) = 0 := by
+      refine Finset.sum_eq_zero (fun k _ => ?_)
+      have e : C i k * Real.exp (-(lam k * t)) * Ci k j
+          = (C i k * Ci k j) * Real.exp (-(lam k * t)) := by ring
+      rw [e, exact_prod_eq_zero i j k h, zero_mul]
+    rw [hz, zero_mul, zero_mul]
+
+/-- so does the computed value -/
+theorem comp_ancPart (N0 : Fin N → ℝ) (i : Fin N) (etil : Fin N → ℝ) (θ : Fin N → Fin N → ℝ) :
+    (∑ j, ∑ k, toMatF N icrp107.cf i k * etil k * toMatF N icrp107.cif k j * ancPart i N0 j
+        * (1 + θ k j))
+      = ∑ j, ∑ k, toMatF N icrp107.cf i k * etil k * toMatF N icrp107.cif k j * N0 j
+        * (1 + θ k j) := by
+  refine Finset.sum_congr rfl (fun j _ => Finset.sum_congr rfl (fun k _ => ?_))
+  unfold ancPart
+  split
+  · rfl
+  · rename_i h
+    have e : ∀ x : ℝ, toMatF N icrp107.cf i k * etil k * toMatF N icrp107.cif k j * x
+        * (1 + θ k j)
+        = (toMatF N icrp107.cf i k * toMatF N icrp107.cif k j) * (etil k * x * (1 + θ k j)) :=
+      fun x => by ring
+    rw [e, e, hat_prod_eq_zero i j k h, zero_mul, zero_mul]
+
+open Classical in
+/-- **forward error relative to the initial atoms held by the nuclide and its ancestors**: same
+hypotheses as `icrp107_forward_error`; only the atoms of `i` itself and of its direct and indirect
+parents enter the bound -/
+theorem icrp107_forward_error_ancestors (t : ℝ) (ht : 0 ≤ t) (N0 : Fin N → ℝ)
+    (hN0 : ∀ j, 0 ≤ N0 j) (i : Fin N)
+    (etil : Fin N → ℝ) (hetil : ∀ k, |etil k - Real.exp (-(lamHat k * t))| ≤ 3 / 2 ^ 53)
+    (θ : Fin N → Fin N → ℝ)
+    (hθ : ∀ k j, |θ k j| ≤ (((gammaU (2 * (getRow icrp107.cx i.val).length + 3) : ℚ)) : ℝ))
+    (comp : ℝ)
+    (hcomp : comp = ∑ j, ∑ k,
+      toMatF N icrp107.cf i k * etil k * toMatF N icrp107.cif k j * N0 j * (1 + θ k j)) :
+    |comp - RdVerif.C01.Nt N0 t i|
+      ≤ 1 / 10 ^ 11 * ∑ j, (if AncOrSelf icrp107 j.val i.val then N0 j else 0) := by
+  have h := icrp107_forward_error t ht (ancPart i N0) (ancPart_nonneg i N0 hN0) i etil hetil θ hθ
+    comp (by rw [hcomp, comp_ancPart])
+  rw [Nt_ancPart] at h
+  exact h
 
 end RdVerif.Icrp107
+
+-- every theorem below depends on [propext, Classical.choice, Quot.sound] only
+-- #print axioms RdVerif.rounding_bound
+-- #print axioms RdVerif.exp_model
+-- #print axioms RdVerif.prod_one_add_le
+-- #print axioms RdVerif.roundRowOk_meaning
+-- #print axioms RdVerif.Icrp107.icrp107_round_coef
+-- #print axioms RdVerif.Icrp107.icrp107_forward_error
+-- #print axioms RdVerif.Icrp107.icrp107_forward_error_ancestors
